@@ -72,7 +72,7 @@ def main(argv=None):
   tasks = mod.plan(ctx)
   rnd = random.Random(seed)
   rnd.shuffle(tasks)
-  results = explore.pmap(mod.work, tasks, ctx.workers)
+  results = explore.pmap(mod.work, tasks, min(ctx.workers, getattr(mod, 'WORKERS', ctx.workers)))
   failed = [r for r in results if r.get('crash')]
   merged = merge(results)
   for r in failed:
